@@ -71,3 +71,39 @@ reg(P(
     "lint and renderers never write the AST (A6); every rule is registered, targets a supported type and cites the checked definition (A11); each rule tests its kind's convention with the right polarity (C7); positions come from tracked symbols, node token/column/line refer to the name symbol, the newline rule is the only line counter and no other token can swallow a newline, the diagnostic template contains file and L<line> (B2); check-only exits non-zero iff an error or a warning (A5).",
     "column arithmetic of _get_col; behaviour of pascal_case/snake_case on arbitrary words.",
 ))
+
+reg(P(
+    "C01", "Python encoder emits exactly the specified bit layout",
+    [("D5", {"ast", "py", "common"}), ("A4", {"ast", "py"}), ("D1", {"py"}), ("E1", {"py"}), ("C3", {"py", "ast"}), ("D3", {"py"}), ("D6", {"py"}), ("D7", {"py"}), ("C4", {"py"})],
+    "size arithmetic equals the specification and BYTES_LENGTH / the encode allocation come from Message.nbytes() (D5); the processor list and dataclass fields are emitted in ascending field-number order (A4); the single-chunk encoder of bp.py equals the layout rule's normal form - stream byte i div 8, value byte 8*(j div 8), shift j mod 8 - i mod 8, mask 2^(i mod 8 + c) - 2^(i mod 8), OR store (D1) - and the chunk size satisfies 1 <= c <= 8, fits both bytes and never exceeds the field (E1); prefix: 16 bits, written before the children, carrying nbits/capacity (C3, D3); generated getters return (field >> rshift) for the field with that number and array depth (D6); alias/enum processors only delegate (D7); generator/runtime constructor arguments agree positionally (C4).",
+    "that the composition of these yields the exact bytes for every schema and value (nothing is executed; no proof of the whole encoder).",
+))
+
+reg(P(
+    "C02", "Python decode(encode(v)) == v, and re-encoding reproduces the bytes",
+    [("D1", {"py"}), ("E1", {"py"}), ("D6", {"py"}), ("D4", {"py"}), ("D3", {"py"}), ("D7", {"py"}), ("C3", {"py"}), ("C4", {"py"})],
+    "the decode chunk is the mirror of the encode chunk (D1 both directions against the same specification form); set-byte items OR a totally-converted chunk into the same reference the get-byte item reads, `=` only for bool, enum chunks go to the integer proxy (D6); sign extension from bit n-1 with mask -(2^n) for every width narrower than its storage, bp.intN thresholds 2^(N-1) / modulus 2^N (D4); decode half of the extensible processors including the skip target (D3); mask < 256 and progress (E1).",
+    "equality of values; exceptions inside dataclasses / IntEnum for member values.",
+))
+
+reg(P(
+    "C05", "Forward compatibility: an older schema decodes data from an extended one",
+    [("D3", ALL), ("C3", ALL), ("EC3", ALL)],
+    "in the six extensible processors (message and array x Python/Go/C): the start position is read before the prefix, the prefix is written on encode and read on decode under `extensible`, children run in order, the cursor moves only when decoding, every forward move passes the guard, and the skip target is start + sender-bits for messages and start + 16 + sender-capacity x bits-per-element for arrays (D3, EC3); what the sender writes (nbits / capacity, 16 bits, scratch field number 1) is what the receiver reads (C3).",
+    "decoded values; only the position arithmetic is decided.",
+))
+
+reg(P(
+    "C15", "Generated API names follow the documented scheme",
+    [("C5", ALL)],
+    "each effective entry of the three case_style_mapping() tables lies in the set the scheme allows for that (language, kind): identity on style-guide names, except the fixed transformations C message -> pascal, Python message -> keep, Go struct field -> pascal; style names resolve to the right converter functions; nested names are prefix + enclosing names outermost first + own name; Encode/Decode/Json/BYTES_LENGTH_/BYTES_LENGTH/encode/decode/Size/JSON-tag templates; output file name and extensions; the C name prefix flows only into the definition-name builder.",
+    "behaviour of pascal_case / snake_case / upper_case on arbitrary words (assumed: keep is the identity, pascal on PascalCase, snake on snake_case, upper and (snake, upper) on UPPER_SNAKE).",
+    ["keep_case/pascal_case/snake_case/upper_case are the identity on names of their own style"],
+))
+
+reg(P(
+    "C19", "Go standard-mode output describes the same messages as the Python output",
+    [("D6", {"go"}), ("A2", {"go", "common"}), ("A4", {"go", "ast"}), ("C2", {"generator", "go"}), ("D5", {"go", "ast", "common"}), ("D4", {"go"}), ("D1", {"go"}), ("E1", {"go"}), ("D3", {"go"}), ("D7", {"go"}), ("C3", {"go"}), ("C4", {"go"}), ("G1", ALL)],
+    "Go struct fields and processor list in ascending field-number order (A4) with the smallest covering integer types (C2); size constant and Size() from Message.nbytes() (D5); processor constructors agree positionally with the runtime's New* functions (C4); byte accessors address the field by number and array depth, widen before the left shift and narrow after the right shift, conversion type = leaf type / alias name (D6); shift-pair sign extension exactly for widths narrower than storage (D4); the Go runtime's chunk helpers, loop and extensible processors reach the same normal forms as the specification, hence as Python's (D1, E1, D3, D7, C3, G1).",
+    "that generated Go compiles (no Go toolchain in the sandbox).",
+))
